@@ -135,7 +135,7 @@ def shards(tier, seed):
             if n_orders >= 720 and not thorough and P != 2:
                 continue        # quick: the 720 orders of the 6-row designs with P = 2 only
             if n_orders >= 720:
-                step = 90 if thorough else 180
+                step = 180
                 for ci in range(ncfg):
                     for a in range(0, n_orders, step):
                         out.append({'b': 'orders', 'K': K, 'M': M, 'R': R, 'P': P, 'cfgs': [ci],
@@ -156,7 +156,7 @@ def shards(tier, seed):
                 out.append({'b': 'relabel', 'K': K, 'M': M, 'R': R, 'P': P, 'cfgs': list(range(ncfg))})
     for K, M, R, P, alpha in _alpha_sets(tier):
         total = len(ALPHABETS[alpha]) ** (K * M * R * P)
-        step = 243 if total > 1000 else 81
+        step = (729 if thorough else 243) if total > 1000 else 81
         for a in range(0, total, step):
             out.append({'b': 'alpha', 'K': K, 'M': M, 'R': R, 'P': P, 'a': alpha,
                         'chunk': [a, min(total, a + step)]})
